@@ -3,7 +3,10 @@
 //!  * `add_node`: how the first new service number is derived (registry length vs. highest recorded number), that
 //!    the name is `antnode{node_number}` and the data dir is `<base>/<service_name>`;
 //!  * `NodeService::on_stop` clears the pid and sets Stopped; `on_remove` sets Removed;
-//!  * `NodeService::on_start` writes pid/status only after the RPC block.
+//!  * `NodeService::on_start` writes pid/status only after the RPC block;
+//!  * `ServiceManager::stop`: whether a failed `service_control.stop` is followed by a process lookup + `on_stop`;
+//!  * `rpc::restart_node_service` (the daemon's restart): how the replacement service of `retain_peer_id = false` is
+//!    numbered, and whether it is pushed to the registry before the `?` on the result of its first start.
 use crate::util::*;
 use quote::ToTokens;
 use std::path::PathBuf;
@@ -101,11 +104,93 @@ pub fn generate(repo: &PathBuf) -> Result<String, String> {
     let inside = rpc_stmt.contains("self.service_data.status=") || rpc_stmt.contains("self.service_data.pid=");
     let writes_after_rpc = st.0 > 0 && pd.0 > 0 && !inside;
 
-    let mut s = header(&format!("{rel_add}, {rel_node}"));
+    // ---- ServiceManager::stop: what happens when `service_control.stop` returns an error
+    let rel_lib = "ant-node-manager/src/lib.rs";
+    let lfile = parse_file(&repo.join(rel_lib))?;
+    let stop = impl_fn(&lfile, "ServiceManager", None, "stop")?;
+    let sbody = toks(&stop.block);
+    let stop_call = "self.service_control.stop(&name,self.service.is_user_mode())";
+    let stop_fail_checks = if sbody.contains(&format!("{stop_call}?;")) {
+        false
+    } else if sbody.contains(&format!(
+        "ifletErr(err)={stop_call}{{ifself.service_control.get_process_pid(&self.service.bin_path()).is_err(){{self.service.on_stop().await?;}}returnErr(err.into());}}"
+    )) {
+        true
+    } else {
+        return Err("ServiceManager::stop: the handling of an error from service_control.stop has an unexpected shape".into());
+    };
+
+    // ---- the daemon's restart path
+    let rel_rpc = "ant-node-manager/src/rpc.rs";
+    let rfile = parse_file(&repo.join(rel_rpc))?;
+    let restart = free_fn(&rfile, "restart_node_service")?;
+    let rlets: Vec<(String, String)> = restart
+        .block
+        .stmts
+        .iter()
+        .filter_map(|st| match st {
+            syn::Stmt::Local(l) => l.init.as_ref().map(|i| (toks(&l.pat).trim_start_matches("mut").to_string(), toks(&i.expr))),
+            _ => None,
+        })
+        .collect();
+    let (rbase, rcur, restart_from_max) = rlets
+        .iter()
+        .find_map(|(n, e)| match e.as_str() {
+            "node_registry.nodes.len()" => Some((n.clone(), e.clone(), false)),
+            "node_registry.nodes.iter().map(|node|node.number).max().unwrap_or(0)" => Some((n.clone(), e.clone(), true)),
+            _ => None,
+        })
+        .ok_or("restart_node_service: no binding initialised from the registry length or the highest recorded number")?;
+    // the `if retain_peer_id { .. } else { .. }` statement; its else block creates the replacement service
+    let else_block = restart
+        .block
+        .stmts
+        .iter()
+        .find_map(|st| match st {
+            syn::Stmt::Expr(syn::Expr::If(i), _) if toks(&i.cond) == "retain_peer_id" => match i.else_branch.as_ref().map(|(_, e)| e.as_ref()) {
+                Some(syn::Expr::Block(b)) => Some(b.block.clone()),
+                _ => None,
+            },
+            _ => None,
+        })
+        .ok_or("restart_node_service: no `if retain_peer_id { .. } else { .. }` statement")?;
+    let ebody = toks(&else_block);
+    for needle in [
+        format!("letnew_node_number={rbase}+1;"),
+        "letnew_service_name=format!(\"antnode{new_node_number}\");".to_string(),
+        "data_dir_path.join(&new_service_name)".to_string(),
+        "service_name:new_service_name.clone(),".to_string(),
+    ] {
+        if !ebody.contains(&needle) {
+            return Err(format!("restart_node_service: expected `{needle}`"));
+        }
+    }
+    if !ebody.contains("number:new_node_number,") && !ebody.contains("number:new_node_numberasu16,") {
+        return Err("restart_node_service: expected `number: new_node_number`".into());
+    }
+    let estmts: Vec<String> = else_block.stmts.iter().map(toks).collect();
+    let push_at = estmts
+        .iter()
+        .position(|t| t.starts_with("node_registry.nodes.push(service_manager.service.service_data.clone())"))
+        .ok_or("restart_node_service: no `node_registry.nodes.push(service_manager.service.service_data.clone())`")?;
+    let start_q_before = estmts[..push_at].iter().any(|t| t.contains("service_manager.start().await?"));
+    let start_bound = estmts[..push_at]
+        .iter()
+        .find_map(|t| t.strip_prefix("let").and_then(|r| r.strip_suffix("=service_manager.start().await;")).map(|n| n.to_string()));
+    let records_failed_start = match (start_q_before, &start_bound) {
+        (true, None) => false,
+        (false, Some(name)) if estmts[push_at + 1..].iter().any(|t| *t == format!("{name}?;")) => true,
+        _ => return Err("restart_node_service: cannot tell whether the replacement service is recorded before the `?` on its start".into()),
+    };
+
+    let mut s = header(&format!("{rel_add}, {rel_node}, {rel_rpc}, {rel_lib}"));
     s.push_str("namespace SafeNet.Gen.Lifecycle\n");
     s.push_str(&format!("/-- `add_node`: `current_node_count` is the highest recorded `number` (true) or `nodes.len()` (false); source: `{cur}` -/\ndef numberFromMax : Bool := {}\n", lean_bool(from_max)));
     s.push_str(&format!("/-- `NodeService::on_stop` assigns `pid = None` -/\ndef onStopClearsPid : Bool := {}\n", lean_bool(stop_clears_pid)));
     s.push_str(&format!("/-- `NodeService::on_start` assigns pid/status only after the block holding the RPC calls -/\ndef onStartWritesAfterRpc : Bool := {}\n", lean_bool(writes_after_rpc)));
+    s.push_str(&format!("/-- `restart_node_service`, `retain_peer_id = false`: the replacement service is numbered from the highest recorded `number` (true) or from `nodes.len()` (false); source: `{rcur}` -/\ndef restartNumberFromMax : Bool := {}\n", lean_bool(restart_from_max)));
+    s.push_str(&format!("/-- `restart_node_service`, `retain_peer_id = false`: the replacement service is pushed to the registry before the `?` on the result of its first start (true), or only after a successful start (false) -/\ndef restartRecordsFailedStart : Bool := {}\n", lean_bool(records_failed_start)));
+    s.push_str(&format!("/-- `ServiceManager::stop`: when `service_control.stop` returns an error the process is looked up again and a service whose process has gone is recorded as stopped (`on_stop`) before the error is returned (true), or the error is returned at once (false) -/\ndef stopFailChecksProcess : Bool := {}\n", lean_bool(stop_fail_checks)));
     s.push_str("end SafeNet.Gen.Lifecycle\n");
     Ok(s)
 }
